@@ -200,7 +200,8 @@ func c01Case(w *core.Worker, i int) {
 	}{
 		{"error", "", 1}, {"exit", "EXIT;", 0}, {"exit3", "EXIT 3;", 3}, {"trigger", "TRIGGER ERROR 5 'boom';", 5},
 	}
-	failing := []string{"SELECT * FROM no_such_table;", "INSERT INTO f1 VALUES (1);", "UPDATE f1 SET c1 = 1 / 0;", "DELETE FROM f1 WHERE nofield = 1;", "INSERT INTO untouched SELECT 1, 2, 3 FROM f1;", "UPDATE f1 SET c1 = (SELECT id FROM f1 x) WHERE id < 100;"}
+	// every one of these either fails or (on an empty table) changes nothing
+	failing := []string{"SELECT * FROM no_such_table;", "INSERT INTO f1 VALUES (1);", "UPDATE f1 SET c1 = 1 / 0;", "DELETE FROM f1 WHERE nofield = 1;", "INSERT INTO untouched SELECT 1, 2, 3 FROM f1;", "UPDATE f1 SET c1 = (SELECT id FROM untouched x) WHERE id < 100000;"}
 	// a COMMIT that fails while encoding: a JSON table gets a column whose name is not a valid JSON path
 	for _, t := range p.Initial {
 		if strings.HasSuffix(t.File, ".json") || strings.HasSuffix(t.File, ".jsonl") {
